@@ -71,6 +71,10 @@ def run_node(node, leaves):
         return run_node(node[1], leaves).tensor()
     if k == "Sum1":
         return run_node(node[1], leaves).sum(-1, keepdim=True)
+    if k == "Slice":           # a VIEW of its operand (of a parameter / an input when the operand is a leaf)
+        x = run_node(node[2], leaves)
+        x = x.tensor() if isinstance(x, P().LieTensor) else x
+        return x[..., :node[1]]
     if k == "AddE":
         return run_node(node[1], leaves) + run_node(node[2], leaves)
     if k == "ScaleE":
@@ -99,6 +103,10 @@ def node_str(node):
         return f"ten({node_str(node[1])})"
     if k == "Sum1":
         return f"sum1({node_str(node[1])})"
+    if k == "Slice":
+        return f"{node_str(node[2])}[..., :{node[1]}]"
+    if k == "OutRef":
+        return f"out{node[1]}" + (f"[..., :{node[2]}]" if node[2] else "")
     if k in ("AddE", "ScaleE"):
         return f"{k}({node_str(node[1])},{node_str(node[2])})"
     return f"{k}[{node[1]}]({node_str(node[2])},{node_str(node[3])})"
@@ -126,7 +134,7 @@ def node_leaves(node, acc=None):
     return acc
 
 
-GUARD = 777.25      # value stored in the part of a buffer that lies outside a view (must never change)
+GUARD = 77.0        # value stored in the part of a buffer that lies outside a view (must never change)
 
 
 def laid_out(t, layout):
@@ -158,12 +166,13 @@ def guard_ok(buf, layout):
     """storage outside the view still holds the guard value"""
     if buf is None:
         return True
+    gv = torch.full((1,), GUARD, dtype=buf.dtype)[0]        # the guard value as this dtype stores it
     if layout == "slice":
-        return bool((buf[..., 0] == GUARD).all()) and bool((buf[..., -1] == GUARD).all())
+        return bool((buf[..., 0] == gv).all()) and bool((buf[..., -1] == gv).all())
     if layout == "step":
-        return bool((buf[..., 1::2] == GUARD).all())
+        return bool((buf[..., 1::2] == gv).all())
     if layout == "bslice":
-        return bool((buf[0] == GUARD).all()) and bool((buf[-1] == GUARD).all())
+        return bool((buf[0] == gv).all()) and bool((buf[-1] == gv).all())
     return True
 
 
@@ -221,6 +230,12 @@ class ProgModel(nn.Module):
         leaves = self.leaves_from(inputs)
         outs = []
         for root, as_t in zip(self.case["roots"], self.case["out_as_tensor"]):
+            if root[0] == "OutRef":     # (31) an output that IS an earlier output (same object) or a view of it
+                o = outs[root[1]]
+                if root[2]:     # a view of the storage (a slice of a LieTensor is taken from its plain tensor view)
+                    o = (o.tensor() if isinstance(o, P().LieTensor) else o)[..., :root[2]]
+                outs.append(o)
+                continue
             o = run_node(root, leaves)
             if as_t and isinstance(o, P().LieTensor):
                 o = o.tensor()
@@ -330,7 +345,7 @@ def gen_leaf_item(rng, ty, wide=False):
             v[3] = rng.choice([1.0, 1.0, 0.0, rng.uniform(-2, 2)])
         return v
     if k == "S":
-        return [rng.choice([0.5, 1.0, 2.0, -1.5, 1e-3, rng.uniform(0.2, 3)])]
+        return [rng.choice([0.5, 1.0, 2.0, -1.5, 1e-3, rng.uniform(0.2, 3), 1.0, 2.0, 1e-5, 1e-8])]   # tiny: diag(JᵀWJ) between 0 and min
     raise AssertionError(ty)
 
 
